@@ -28,7 +28,7 @@ from .C14 import same_scalar, judge_corr, to_model, Layout, hint_global, magnitu
 
 ID = 'C15'
 LEVEL = 'exploration'
-DECIDING = ['held_results_checked', 'scale_invariance_pairs', 'variant_calls', 'timeslices_judged', 'entries_compared', 'root_substitutions', 'plateau_fits', 'plateau_averages',
+DECIDING = ['repeat_calls_compared', 'fits_with_shared_function_object', 'held_results_checked', 'scale_invariance_pairs', 'variant_calls', 'timeslices_judged', 'entries_compared', 'root_substitutions', 'plateau_fits', 'plateau_averages',
             'patterns_enumerated', 'tap:Corr.deriv', 'tap:Corr.second_deriv', 'tap:Corr.m_eff', 'tap:Corr.plateau']
 RULE = ('cases: single-valued real correlators, Obs on 1-2 replicas (contiguous / strided / gapped lists); (enum) T=4..8 with EVERY set of '
         'undefined timeslices that leaves at least one timeslice defined (2^T - 1 masks per T, 491 in all; exhaustive for this sub-space), '
@@ -101,7 +101,7 @@ def plan(tier):
                 p.append(('%s:%s:%d' % (tag, sign, k), len(ENUM[k::ENUM_SPLIT])))
     for k in range(2):
         p += [('sample:%d' % k, 130 * m), ('roots:%d' % k, 80 * m), ('plateau:%d' % k, 100 * m)]
-    p.append(('onebyone', 12 * m))
+    p.append(('onebyone', 52 * m))
     return p
 
 
@@ -219,6 +219,7 @@ def report_raise(ctx, exc, label, exp_any_defined, mask, c=None):
 
 
 # ------------------------------------------------------------------------------------------
+REPEAT = [False]   # set per case: every variant is called a second time
 HELD = []      # (label, result, digest at the time it was returned): re-checked after all later calls of the case (results must not change)
 
 
@@ -228,6 +229,13 @@ def judge_formula(ctx, A, c, mask, label, call, exp_flat, hints):
     res, exc = attempt(call)
     if exc is None and is_corr(res):
         HELD.append((label, res, any_digest(res)))
+        if REPEAT[0]:
+            # the same call again on the same object: same result (checklist 15)
+            res2, exc2 = attempt(call)
+            ctx.ev()
+            ctx.count('repeat_calls_compared')
+            if exc2 is not None or any_digest(res2) != any_digest(res):
+                ctx.violation('repeat:%s:second-call-differs' % label, {'second': repr(exc2)[:200] if exc2 is not None else 'other result'})
     ctx.ev()
     if any_digest(A) != d0:
         ctx.violation('mutation:%s:self' % label.split('.')[0], {'call': label})
@@ -256,6 +264,7 @@ def judge_roots(ctx, A, c, mask, variant, guess=None):
     T = len(c)
     plan = refc.m_eff_root_plan(c, variant, FN)
     ctx.count('variant_calls')
+    ctx.count('judged:' + label)
     res, exc = attempt((lambda: A.m_eff(variant)) if guess is None else (lambda: A.m_eff(variant, guess=guess)))
     if exc is None and is_corr(res):
         HELD.append((label, res, any_digest(res)))
@@ -402,6 +411,14 @@ def scale_invariance(ctx, rng, A, mask):
 
 
 # ------------------------------------------------------------------------------------------
+def CONST_A(a, t):
+    return a[0]
+
+
+def CONST_B(a, t):
+    return a[0]
+
+
 def judge_plateau(ctx, A, c, mask, first, last, method, how, auto_gamma, np_range=False, direct_fit=False):
     """how: 'range' (explicit list) | 'prange' (taken from the correlator)"""
     label = ('fit.const' if direct_fit else 'plateau.fit') if method == 'fit' else 'plateau.avg'
@@ -412,8 +429,10 @@ def judge_plateau(ctx, A, c, mask, first, last, method, how, auto_gamma, np_rang
     if auto_gamma:
         kw['auto_gamma'] = True
     if direct_fit:
-        def const(a, t):
-            return a[0]
+        # ONE function object for all direct fits of the process (other data, other ranges), and a second object with equal code
+        # (checklist 11: nothing may be remembered per function object)
+        const = CONST_A if first % 3 else CONST_B
+        ctx.count('fits_with_shared_function_object')
         call = (lambda: A.fit(const, rng_list, silent=True)[0]) if how != 'kw' else (lambda: A.fit(const, fitrange=rng_list, silent=True)[0])
     elif how == 'prange':
         call = lambda: A.plateau(**kw)
@@ -424,8 +443,8 @@ def judge_plateau(ctx, A, c, mask, first, last, method, how, auto_gamma, np_rang
     w = None
     if method == 'fit':
         w = []
-        for o in c:
-            if o is None:
+        for t, o in enumerate(c):
+            if o is None or not first <= t <= last:
                 w.append(None)
             elif auto_gamma:
                 tw = copy.deepcopy(o)
@@ -433,7 +452,14 @@ def judge_plateau(ctx, A, c, mask, first, last, method, how, auto_gamma, np_rang
                 w.append(1.0 / tw.dvalue ** 2)
             else:
                 w.append(1.0 / o.dvalue ** 2)
+    ctx.count('judged:' + label)
     res, exc = attempt(call)
+    if exc is None and REPEAT[0]:
+        res2, exc2 = attempt(call)
+        ctx.ev()
+        ctx.count('repeat_calls_compared')
+        if exc2 is not None or any_digest(res2) != any_digest(res):
+            ctx.violation('repeat:%s:second-call-differs' % label, {'second': repr(exc2)[:200] if exc2 is not None else 'other result'})
     ctx.ev()
     if [int(x) for x in rng_list] != [first, last]:
         ctx.violation('mutation:plateau:arg0', {'after': rng_list, 'before': [first, last]})
@@ -506,6 +532,8 @@ def plateaus(ctx, rng, A, entries, mask, nfit=2, navg=6):
 # ------------------------------------------------------------------------------------------
 def run_case(ctx, kind, idx, rng):
     full_kind = kind
+    REPEAT[0] = (idx % 5 == 0)
+    del HELD[:]
     if kind.startswith('enum'):
         _, sign, k = kind.split(':')
         T, mask = ENUM[int(k)::ENUM_SPLIT][idx]
@@ -575,7 +603,7 @@ def run_case(ctx, kind, idx, rng):
         if not any(mask):
             mask[0] = True
         a = int(rng.integers(0, T))
-        b = int(rng.integers(a, T)) if rng.random() > 0.2 else a      # first == last: a single timeslice
+        b = int(rng.integers(a, T)) if rng.random() > 0.3 else a      # first == last: a single timeslice
         if rng.random() < 0.1:
             a, b = 0, T - 1
         how = ['range', 'prange', 'kw'][idx % 3]
@@ -596,12 +624,19 @@ def run_case(ctx, kind, idx, rng):
         auto = bool((idx // 3) % 2)
         # stored analysis state: with auto_gamma off it defines the weights; with auto_gamma on the call must replace it
         # by the default analysis (a stale S = 0 analysis gives visibly different errors)
-        if not auto:
+        if not auto and rng.random() < 0.6:
+            # timeslices outside the range are spectators: they stay without error analysis (a fit that touched them would
+            # refuse to run), only the timeslices of the range are analysed (checklist 14)
+            for t in range(a, b + 1):
+                if c[t] is not None:
+                    c[t].gamma_method(S=float(rng.choice([2.0, 0.0])))
+            ctx.count('plateau_with_unanalysed_spectator_timeslices')
+        elif not auto:
             A.gamma_method(S=float(rng.choice([2.0, 2.0, 0.0, 4.0])))
         elif rng.random() < 0.6:
             A.gamma_method(S=0.0)
             ctx.count('plateau_auto_gamma_with_other_stored_analysis')
-        npr = how != 'prange' and rng.random() < 0.25
+        npr = how != 'prange' and rng.random() < 0.45
         ctx.cell('plateau.fit', how, 'auto_gamma' if auto else 'analysed', sign)
         n = judge_plateau(ctx, A, c, mask, a, b, 'fit', how, auto, np_range=npr)
         meth = str(rng.choice(['avg', 'average', 'mean']))
